@@ -57,6 +57,9 @@ def run(rep, tier, seed, replay):
     for c in direct:
         if not c.head.startswith("root="):
             continue
+        if c.link == "t" and any(k in ("lc", "ld", "lu") for _p, k, _d in walklib.rec_paths(c.f.get("rec", "-"), "@R")):
+            rep.stats["direct: not judged (a followed link is a fault on this traversal)"] += 1
+            continue
         obs, yl = c13.expected(c)
         got = [p for p, *_ in walklib.ok_items(c.f.get("items"))]
         if got == yl:
